@@ -36,6 +36,8 @@ MENU = [
     ("eol-comment-blank", " # c{N}\n\n", "line"),
     ("eol-then-own-line", " # c{N}\n# d{N}\n", "line"),
     ("eol-then-block", " # c{N}\n/* d{N} */\n", "line"),
+    ("two-blocks-own-line", "\n/* c{N} */ /* d{N} */\n", "block"),
+    ("block-multi-then-line", "\n/* c{N}\n   more */ # d{N}\n", "multi"),
 ]
 MENU_BY_ID = {m[0]: m for m in MENU}
 
